@@ -116,6 +116,9 @@ def classify_exception(exc):
     """-> ("permitted", reason) | ("crash", signature)"""
     import os
     fr = innermost_aquacrop_frame(exc)
+    if fr is None:
+        # no frame of the repository on the stack: the harness itself failed
+        return "harness", f"{type(exc).__name__}:{str(exc)[:120]}"
     fname = os.path.basename(fr.filename) if fr else "?"
     func = fr.name if fr else "?"
     tname = type(exc).__name__
